@@ -58,6 +58,16 @@ class CallGraph:
                 self.sites.setdefault(nm, []).append((b, bb))
                 if nm in self.f.bodies:
                     es.add(nm)
+                if f.get("trait") and f.get("local") and f.get("res_k") != "item":
+                    # unresolved call of a crate-local trait method: every local impl may run
+                    meth = f.get("method")
+                    tr = norm_name(f["trait"])
+                    for ms in self.impl_methods.values():
+                        for m in ms:
+                            if m.endswith(" as %s>::%s" % (tr, meth)):
+                                es.add(m)
+                if nm in self.f.bodies:
+                    pass
                 elif nm != "<indirect>":
                     self.ext_calls.setdefault(b.name, []).append((bb, nm, f))
                     # external generic code may call back into local trait impls
@@ -65,10 +75,18 @@ class CallGraph:
                     blob = " ".join(f.get("fn_args", [])) + " " + " ".join(f.get("res_args", []))
                     for ty, methods in self.impl_methods.items():
                         base = ty.split("<")[0]
-                        if base and base in blob:
+                        if base and re.search(r"(?<![A-Za-z0-9_:])" + re.escape(base) + r"(?![A-Za-z0-9_])", blob):
                             for m in methods:
-                                # From impls are reached through Into::into / From::from of the matching types only
-                                if "std::convert::From<" in m and not ("convert::Into" in nm or "convert::From" in nm):
+                                # an external generic function can only call methods of traits it is bounded on;
+                                # approximate the bound by the callee's name for the common std traits
+                                low = nm.lower()
+                                if "std::convert::From<" in m and not ("convert::Into" in nm or "convert::From" in nm or "from_residual" in nm):
+                                    continue
+                                if " as std::str::FromStr>::" in m and not nm.endswith("str>::parse"):
+                                    continue
+                                if " as std::iter::Iterator>::" in m and not ("iter" in low or "peekable" in low or "collect" in low or "extend" in low):
+                                    continue
+                                if " as std::default::Default>::" in m and not ("default" in low or "mem::take" in nm):
                                     continue
                                 # formatting impls are only reached through the fmt machinery of the matching trait
                                 fm = _FMT_RE.search(m)
